@@ -193,6 +193,7 @@ func enumKill(env *EnumEnv, it *WorkItem) *EnumResult {
 		return res
 	}
 	perThread := map[string]int{}
+	perName := map[string]map[string]int{}
 	inSubmit := map[string]int{}
 	began := false
 	f, _ := os.Open(trace)
@@ -219,6 +220,10 @@ func enumKill(env *EnumEnv, it *WorkItem) *EnumResult {
 			continue
 		}
 		perThread[tid]++
+		if perName[tid] == nil {
+			perName[tid] = map[string]int{}
+		}
+		perName[tid][name]++
 		if began {
 			inSubmit[tid]++
 		}
@@ -242,10 +247,32 @@ func enumKill(env *EnumEnv, it *WorkItem) *EnumResult {
 	total := tcs[0].n
 	res.Notes = append(res.Notes, fmt.Sprintf("dry run: %d write-class system calls (%s) on the submitting thread, %d of them after Submit began (Submit, then Delete of the same plan); kill injected at every one of them", total, killSyscalls, inSubmit[tcs[0].tid]))
 	outcomes := map[string]int{}
-	for k := 1; k <= total; k++ {
+	// strace counts the invocations of every system call of the set separately (per thread), so each kill point is
+	// addressed as "the k-th call of <name>": one enumeration per call name, every k up to that name's count.
+	type killPoint struct {
+		name string
+		k    int
+	}
+	var points []killPoint
+	var names []string
+	for name := range perName[tcs[0].tid] {
+		names = append(names, name)
+	}
+	sort.Strings(names)
+	var perNameNote []string
+	for _, name := range names {
+		n := perName[tcs[0].tid][name]
+		perNameNote = append(perNameNote, fmt.Sprintf("%s:%d", name, n))
+		for k := 1; k <= n; k++ {
+			points = append(points, killPoint{name, k})
+		}
+	}
+	res.Notes = append(res.Notes, "kill points by call name: "+strings.Join(perNameNote, " "))
+	for pi, pt := range points {
+		k := pi + 1
 		dir := filepath.Join(base, "k"+strconv.Itoa(k))
 		os.MkdirAll(dir, 0o755)
-		runKillChild(dir, "-o", "/dev/null", "-e", "trace="+killSyscalls, "-e", "inject="+killSyscalls+":signal=SIGKILL:when="+strconv.Itoa(k))
+		runKillChild(dir, "-o", "/dev/null", "-e", "trace="+pt.name, "-e", "inject="+pt.name+":signal=SIGKILL:when="+strconv.Itoa(pt.k))
 		returned := false
 		if _, err := os.Stat(filepath.Join(dir, "submit-returned")); err == nil {
 			returned = true
@@ -264,15 +291,15 @@ func enumKill(env *EnumEnv, it *WorkItem) *EnumResult {
 			if deleting {
 				rule = "killed-delete-left-partial-plan"
 			}
-			res.Found = append(res.Found, &EnumFound{V: Violation{Property: prop, Rule: rule, Signature: "sqlite:kill", Msg: fmt.Sprintf("process killed at write-class system call %d of %d: %s", k, total, problem)}, Input: map[string]any{"kill": k}})
+			res.Found = append(res.Found, &EnumFound{V: Violation{Property: prop, Rule: rule, Signature: "sqlite:kill", Msg: fmt.Sprintf("process killed at call %d of %s (kill point %d of %d): %s", pt.k, pt.name, k, total, problem)}, Input: map[string]any{"kill": pt.k, "call": pt.name}})
 			break
 		}
 		if returned && !deleting && st != "complete" {
-			res.Found = append(res.Found, &EnumFound{V: Violation{Property: prop, Rule: "acknowledged-submit-lost", Signature: "sqlite:kill", Msg: fmt.Sprintf("Submit had returned before the kill at call %d but the plan is %s after re-opening", k, st)}, Input: map[string]any{"kill": k}})
+			res.Found = append(res.Found, &EnumFound{V: Violation{Property: prop, Rule: "acknowledged-submit-lost", Signature: "sqlite:kill", Msg: fmt.Sprintf("Submit had returned before the kill at call %d of %s but the plan is %s after re-opening", pt.k, pt.name, st)}, Input: map[string]any{"kill": pt.k, "call": pt.name}})
 			break
 		}
 		if deleted && st != "absent" {
-			res.Found = append(res.Found, &EnumFound{V: Violation{Property: prop, Rule: "acknowledged-delete-lost", Signature: "sqlite:kill", Msg: fmt.Sprintf("Delete had returned before the kill at call %d but the plan is %s after re-opening", k, st)}, Input: map[string]any{"kill": k}})
+			res.Found = append(res.Found, &EnumFound{V: Violation{Property: prop, Rule: "acknowledged-delete-lost", Signature: "sqlite:kill", Msg: fmt.Sprintf("Delete had returned before the kill at call %d of %s but the plan is %s after re-opening", pt.k, pt.name, st)}, Input: map[string]any{"kill": pt.k, "call": pt.name}})
 			break
 		}
 		if deleting {
@@ -298,18 +325,21 @@ func tail(s string, n int) string {
 }
 
 // replayKill re-runs one kill point (the k-th write-class system call of the storage thread) and inspects the store.
-func replayKill(prop string, k int) []*Violation {
+func replayKill(prop string, k int, call string) []*Violation {
+	if call == "" {
+		call = killSyscalls
+	}
 	base := filepath.Join(*flagVerifDir, ".work", fmt.Sprintf("killreplay-%d", os.Getpid()))
 	os.RemoveAll(base)
 	os.MkdirAll(base, 0o755)
 	defer os.RemoveAll(base)
 	if k > 0 {
-		runKillChild(base, "-o", "/dev/null", "-e", "trace="+killSyscalls, "-e", "inject="+killSyscalls+":signal=SIGKILL:when="+strconv.Itoa(k))
+		runKillChild(base, "-o", "/dev/null", "-e", "trace="+call, "-e", "inject="+call+":signal=SIGKILL:when="+strconv.Itoa(k))
 	} else {
 		runKillChild(base, "-o", "/dev/null", "-e", "trace="+killSyscalls)
 	}
 	st, problem := inspectStore(base)
-	fmt.Printf("kill at write-class system call %d: store after re-opening: %s %s\n", k, st, problem)
+	fmt.Printf("kill at call %d of %s: store after re-opening: %s %s\n", k, call, st, problem)
 	if problem != "" {
 		return []*Violation{{Property: prop, Rule: "killed-operation-left-partial-plan", Signature: "sqlite:kill", Msg: problem}}
 	}
